@@ -77,7 +77,9 @@ def build(b, T, G, np_, shape):
             p['const_timestep'] = cts
             p['timestep'] = [cts]
         pb = shape.get('print_block')
-        p['print_block'] = info['names'][0] if (pb == 'block0' and info['names']) else pb
+        if isinstance(pb, str) and pb.startswith('block') and pb[5:].isdigit() and len(info['names']) > int(pb[5:]):
+            p['print_block'] = info['names'][int(pb[5:])]
+        else: p['print_block'] = None if (isinstance(pb, str) and pb.startswith('block')) else pb
         p.update(b.record('param3'))
         p['default_incons'] = b.reals(shape.get('nincons', 0), 'e', 20, 14)
     else:
